@@ -62,7 +62,7 @@ def binop(o, l, r):
     return {'k': 'bin', 'o': o, 'l': l, 'r': r}
 
 
-NT = 8
+NT = 11
 
 
 def template(t, j, fails):
@@ -100,6 +100,28 @@ def template(t, j, fails):
         ctl = let(var(c('f%')), num(0 if fails else 2))
         st = let(var('r%'), {'k': 'call', 'n': 'dv%', 'pi': 1, 't': 'I', 'args': [{'k': 'par', 'a': var(c('f%'))}]})
         fix = [let(var(c('f%')), num(1))]
+    elif t == 9:
+        # the opening line of an IF block fails; the first statement of its body is itself a block
+        ctl = let(var(c('h%')), num(0 if fails else 2))
+        inner = {'k': 'if', 'arms': [{'c': binop('eq', var(c('h%')), num(7)), 'body': [pr(strl('inner%d' % j))]}], 'els': [], 'hasels': False}
+        st = {'k': 'if', 'arms': [{'c': binop('eq', {'k': 'par', 'a': binop('idiv', num(10), var(c('h%')))}, num(5)),
+                                   'body': [inner, pr(strl('body%d' % j))]}], 'els': [], 'hasels': False}
+        fix = [let(var(c('h%')), num(5))]
+    elif t == 10:
+        # the WHILE line fails; the body repairs the cause, the loop then ends
+        ctl = let(var(c('w%')), num(0 if fails else 2))
+        st = {'k': 'while', 'c': binop('gt', {'k': 'par', 'a': binop('idiv', num(10), var(c('w%')))}, num(20)),
+              'body': [let(var(c('w%')), num(1)), pr(strl('w%d' % j))]}
+        fix = [let(var(c('w%')), num(5))]
+    elif t == 11:
+        # an ELSEIF line fails; its body starts with a FOR block
+        ctl = let(var(c('e%')), num(0 if fails else 2))
+        loop = {'k': 'for', 'v': var(c('q%')), 'from': num(1), 'to': num(1), 'step': num(1), 'hasstep': False, 'nextvar': False,
+                'body': [pr(strl('in-for%d' % j))]}
+        st = {'k': 'if', 'arms': [{'c': binop('eq', var(c('e%')), num(99)), 'body': [pr(strl('a%d' % j))]},
+                                  {'c': binop('eq', {'k': 'par', 'a': binop('idiv', num(10), var(c('e%')))}, num(5)), 'body': [loop, pr(strl('b%d' % j))]}],
+              'els': [], 'hasels': False}
+        fix = [let(var(c('e%')), num(5))]
     else:
         # the statement's FUNCTION has already printed when the statement fails
         ctl = let(var(c('g%')), num(0 if fails else 4))
